@@ -578,7 +578,7 @@ def run(ctx: Ctx) -> Outcome:
                                         {"kind": "spec", "invariant": inv, "trace": res.counterexample[:60]}))
     loaders = ["sdl", "json"]
     cfgs = CFGS_QUICK if ctx.quick else CFGS_THOROUGH
-    n = 12 if ctx.quick else 24
+    n = 12 if ctx.quick else 16
     items = []
     for s, view in enumerate(views):
         for li, loader in enumerate(loaders):
@@ -587,8 +587,8 @@ def run(ctx: Ctx) -> Outcome:
                 ld = ["json-data", "file-json"][s % 2]     # the other front doors of the same loaders, on a slice of the family
             if loader == "sdl" and s % 7 == 5:
                 ld = "path"
-            # SDL loader: all generation configs of the tier; JSON loaders: 2 (quick) / 4 (thorough) of them
-            items.append({"s": s, "view": view, "loader": ld, "cfgs": cfgs if loader == "sdl" else (CFGS_QUICK[::3] if ctx.quick else CFGS_QUICK), "n": n, "seed": (ctx.seed * 1000003 + s * 17 + li) % (2 ** 31)})
+            # SDL loader: all generation configs of the tier; JSON loaders: 2 of them
+            items.append({"s": s, "view": view, "loader": ld, "cfgs": cfgs if loader == "sdl" else CFGS_QUICK[::3], "n": n, "seed": (ctx.seed * 1000003 + s * 17 + li) % (2 ** 31)})
     t1 = time.time()
     results = common.pmap(work, items, chunk=1)
     t_draw = time.time() - t1
@@ -612,7 +612,8 @@ def run(ctx: Ctx) -> Outcome:
         "rule": "every schema shape reachable in GraphQL.tla under %s (TLC-enumerated) x loaders %s x generation configs %s; per operation %d "
                 "Hypothesis draws (distinct bodies judged); every name-filter pair of Filters(shape); non-trivial = distinct document with "
                 "arguments or a sub-selection" % (cfg, sorted({i["loader"] for i in items}), cfgs, n),
-        "exhaustive": {"schema_shapes_and_filters_within_cfg": True, "draws": False},
+        "exhaustive": False,
+        "exhaustive_detail": {"schema_shapes_and_filters_within_cfg": True, "draws": False},
         "constants": {"cfg": cfg, "draws_per_operation": n, "generation_configs(allow_null,allow_x00,ascii)": cfgs},
         "documents_judged": m["docs"], "offered_observations_judged": m["ops"], "documents_rejected": m["bad_docs"],
         "documents_with_undetermined_values": m["unknown_docs"],
